@@ -41,14 +41,9 @@ func TestVerif_C21Live(t *testing.T) {
 	}
 	defer stopSink()
 	var aborted atomic.Bool
-	nCfg := r.N(20, 300)
-	perCfg := r.N(40, 60)
-	r.Cases("agent", nCfg, func(i int, rng *verifkit.Rand) {
-		if aborted.Load() {
-			return
-		}
-		auth, setup := c21kit.GenAgentAuth(rng, i)
-		withExit := rng.Bool()
+	// startAgent builds and starts a real agent for one auth section and returns its SOCKS5
+	// endpoints as a target whose executed CONNECTs are the connections arriving at the sink.
+	startAgent := func(i int, phase string, auth config.SOCKS5AuthConfig, withExit bool) (*c21kit.Target, func(), bool) {
 		var a *agent.Agent
 		var wsAddr string
 		for attempt := 0; ; attempt++ {
@@ -56,7 +51,7 @@ func TestVerif_C21Live(t *testing.T) {
 			if err != nil {
 				r.Inconclusive("no free port: " + err.Error())
 				aborted.Store(true)
-				return
+				return nil, nil, false
 			}
 			cfg := config.Default()
 			cfg.Agent.DataDir = t.TempDir()
@@ -84,16 +79,16 @@ func TestVerif_C21Live(t *testing.T) {
 			if attempt >= 3 {
 				r.Inconclusive("agent did not start: " + err.Error())
 				aborted.Store(true)
-				return
+				return nil, nil, false
 			}
 		}
-		defer func() {
+		stop := func() {
 			ctx, cancel := context.WithTimeout(context.Background(), 20*time.Second)
 			defer cancel()
 			if err := a.StopWithContext(ctx); err != nil {
 				r.Add("agent_stop_timeouts", 1)
 			}
-		}()
+		}
 		r.Add("agents_started", 1)
 		if withExit {
 			r.Add("agents_with_local_exit", 1)
@@ -106,15 +101,51 @@ func TestVerif_C21Live(t *testing.T) {
 			Events: func() c21kit.Events {
 				peers, err := flush()
 				if err != nil {
-					r.Inconclusive(fmt.Sprintf("agent:%d sink: %v", i, err))
+					r.Inconclusive(fmt.Sprintf("%s:%d sink: %v", phase, i, err))
 					aborted.Store(true)
 				}
 				return c21kit.Events{Dials: peers}
 			},
 		}
+		return tgt, stop, true
+	}
+	nCfg := r.N(20, 300)
+	perCfg := r.N(40, 60)
+	r.Cases("agent", nCfg, func(i int, rng *verifkit.Rand) {
+		if aborted.Load() {
+			return
+		}
+		auth, setup := c21kit.GenAgentAuth(rng, i)
+		tgt, stop, ok := startAgent(i, "agent", auth, rng.Bool())
+		if !ok {
+			return
+		}
+		defer stop()
 		x := &c21kit.Runner{R: r, Phase: "agent", Case: i, S: setup, T: tgt, Aborted: &aborted}
 		x.Workload(rng, perCfg)
 	})
+	// phase 2: identical credential pairs presented concurrently to a running agent whose users
+	// have bcrypt hashes
+	r.Cases("conc", r.N(2, 20), func(i int, rng *verifkit.Rand) {
+		if aborted.Load() {
+			return
+		}
+		users, hashes := c21kit.GenHashedUsers(rng, i)
+		auth := config.SOCKS5AuthConfig{Enabled: true}
+		for _, u := range users {
+			auth.Users = append(auth.Users, config.SOCKS5UserConfig{Username: u.Name, PasswordHash: hashes[u.Name]})
+		}
+		setup := c21kit.Setup{Class: "usable-user", Enforced: true, Users: users, SlowUnknown: true, Desc: auth}
+		tgt, stop, ok := startAgent(i, "conc", auth, false)
+		if !ok {
+			return
+		}
+		defer stop()
+		x := &c21kit.Runner{R: r, Phase: "conc", Case: i, S: setup, T: tgt, Aborted: &aborted}
+		x.ConcurrentRounds(rng, r.N(8, 30))
+	})
+	r.Require("concurrent_rounds", 10)
+	r.Require("concurrent_rounds_overlapped", 6)
 	r.Require("agents_started", 10)
 	r.Require("transcripts", 500)
 	r.Require("transcripts_ws", 100)
